@@ -475,7 +475,7 @@ func writeSeq(r *ev.Run, name string, maxLen, faultLen, invalidLen int) {
 // writeCuts cuts complete streams at every position.
 func writeCuts(r *ev.Run, name string, maxParts int) {
 	sub := r.NewSub(name, "venum", fmt.Sprintf(
-		"ByteStream.Write: for objects \"\", \"a\", \"abc\", 40 x 'a' and two concatenated zstd frames, identity and zstd (klauspost default framing and explicit zero-length frames), unbounded and bounded pool: "+
+		"ByteStream.Write: for objects \"\", \"a\", \"abc\", 40 x 'a' and two concatenated zstd frames, identity and zstd (klauspost default framing and explicit zero-length frames; bounded pool; the default unbounded pool for \"abc\" with one part fewer): "+
 			"every cut of the complete (compressed) stream into <= %d non-empty messages with exact offsets, finish_write on the last data message or on a separate empty message; "+
 			"each also with one message's offset moved by -1/+1/+7/to 0, with finish_write dropped, with the stream broken after every message, with the last byte of the stream dropped / altered / followed by an extra byte", maxParts))
 	done := sub.Timer()
@@ -490,13 +490,16 @@ func writeCuts(r *ev.Run, name string, maxParts int) {
 	big := bytes.Repeat([]byte("a"), 40)
 	for _, content := range [][]byte{{}, []byte("a"), []byte("abc"), big} {
 		vs = append(vs, variant{content, "identity", content, ""})
-		for _, pool := range []string{"", "bounded"} {
-			vs = append(vs, variant{content, "zstd", compress(content), pool})
+		vs = append(vs, variant{content, "zstd", compress(content), "bounded"})
+		if len(content) == 3 {
+			// A fresh klauspost decoder per call (the default, unbounded pool)
+			// zeroes an 8 MiB window: one object, one part fewer.
+			vs = append(vs, variant{content, "zstd", compress(content), ""})
 		}
-		vs = append(vs, variant{content, "zstd", compressZeroFrames(content), ""})
+		vs = append(vs, variant{content, "zstd", compressZeroFrames(content), "bounded"})
 	}
 	// Two frames: "ab" and "c" compressed separately, concatenated (a valid zstd stream for "abc").
-	vs = append(vs, variant{[]byte("abc"), "zstd", append(compress([]byte("ab")), compress([]byte("c"))...), ""})
+	vs = append(vs, variant{[]byte("abc"), "zstd", append(compress([]byte("ab")), compress([]byte("c"))...), "bounded"})
 	var notes []string
 	for _, v := range vs {
 		v := v
@@ -509,6 +512,9 @@ func writeCuts(r *ev.Run, name string, maxParts int) {
 		parts := maxParts
 		if len(v.stream) > 24 {
 			parts = 3 // 40-byte identity stream: C(39,<=2) cuts
+		}
+		if v.comp == "zstd" && v.pool == "" {
+			parts = maxParts - 1
 		}
 		comps := sim.Compositions(v.stream, parts, false)
 		var seenMu sync.Mutex
